@@ -36,10 +36,10 @@ RULE = ('every ordered pair of the value alphabet (quick 32, thorough 50 '
         'transitivity_triples); a case is non-trivial when the reference '
         'judges it and the two operands are different alphabet entries')
 BOUNDS = {
-    'quick': {'alphabet': 36, 'routes': 6, 'operators': 6,
-              'triples_per_full_route': 35 ** 3},
-    'thorough': {'alphabet': 54, 'routes': 9, 'operators': 6,
-                 'triples_per_full_route': 52 ** 3},
+    'quick': {'alphabet': 38, 'routes': 6, 'operators': 6,
+              'triples_per_full_route': 37 ** 3},
+    'thorough': {'alphabet': 56, 'routes': 9, 'operators': 6,
+                 'triples_per_full_route': 54 ** 3},
 }
 ASSUMPTIONS = [
     'the order stated in the property (reference model xlmc/ref/order.py, '
@@ -86,7 +86,7 @@ QUICK = [
     _num('f0.1+0.2', 'float', 0.30000000000000004),
     _num('i1e15', 'int', 10 ** 15), _num('i1e15+1', 'int', 10 ** 15 + 1),
     _date(2020, 1, 1), _date(2020, 1, 2),
-    _text(''), _text('1'), _text('10'), _text('a'), _text('A'), _text('ab'),
+    _text(''), _text('1'), _text('10'), _text('9'), _text('1A'), _text('a'), _text('A'), _text('ab'),
     _text('B'), _text('true'), _text('FALSE'), _text('é'),
     {'id': 'b:FALSE', 'cls': 'bool', 'carrier': 'bool', 'v': False},
     {'id': 'b:TRUE', 'cls': 'bool', 'carrier': 'bool', 'v': True},
@@ -393,7 +393,7 @@ def replay(inputs, ctx):
 
 def selftest():
     ref.selftest()
-    assert len(QUICK) == 36 and len(ALPHABET['thorough']) == 54
+    assert len(QUICK) == 38 and len(ALPHABET['thorough']) == 56
     ids = [v['id'] for v in ALPHABET['thorough']]
     assert len(ids) == len(set(ids))
     texts = [v['v'] for v in ALPHABET['thorough'] if v['cls'] == 'text']
@@ -420,7 +420,7 @@ TECHNIQUE = ('bounded-exhaustive enumeration of ordered pairs of a value '
              'library, against a reference rank, plus the order laws '
              '(trichotomy, consistency, converse, transitivity over all '
              'triples) evaluated on the observed relation')
-LEVEL_TEXT = ('All ordered pairs of 36 (thorough: 54) representative values '
+LEVEL_TEXT = ('All ordered pairs of 38 (thorough: 56) representative values '
               '- ints, floats, equal int/float pairs, dates with serials '
               'between the numbers, empty / numeric-looking / boolean-looking '
               '/ mixed-case / prefix texts, a non-ASCII text, both logicals '
